@@ -1,6 +1,8 @@
 """C06 -- the chosen Rust integer type can hold every permitted value."""
 import re
 from common import cz, cn, cbool, copt, clist, run_harness, coq_eval_bad, coq_eval_show
+from props import pvgen as G
+from props.C04 import flat_term, with_marker
 
 REQ = ['RasnV.Corr.C06']
 KS = [7, 8, 15, 16, 31, 32, 63, 64]
@@ -208,6 +210,90 @@ def judge(ck, cases, results):
     ck.coverage['traces_validated_against_impl'] = sum(len(v) for v in corr_terms.values())
 
 
+def setop_cases(ck, n):
+    cases = []
+    pool = [p for p in FIN if abs(p) < 2 ** 65]
+    for _ in range(n):
+        k = ck.rng.choice([1, 2, 2, 3])
+        elems = [G.rand_int_elem(ck.rng, allow_x=False, pool=pool) for _ in range(k)]
+        ops = [ck.rng.choice(['union', 'inter', 'except']) for _ in range(k - 1)]
+        if ops == ['except', 'except']:
+            continue
+        if any(e['k'] == 'range' and e['lo'] and e['hi'] and int(e['lo']['i']) > int(e['hi']['i']) for e in elems):
+            continue
+        marker = ck.rng.random() < 0.4
+        paren = k == 1 and ck.rng.random() < 0.5          # ((lo..hi), ...): marker outside the parenthesised element
+        if paren:
+            text = '((%s)%s)' % (G.t_elem(elems[0]), ', ...' if marker else '')
+            cons = {'set': G.E(elems[0]), 'ext': marker}
+        else:
+            text = G.t_constraint({'set': G.chain(elems, ops), 'ext': marker})
+            cons = {'set': G.chain(with_marker(elems, marker), ops), 'ext': False}
+        src = ('M DEFINITIONS AUTOMATIC TAGS ::= BEGIN\nTt ::= INTEGER %s\nSs ::= SEQUENCE { a INTEGER %s }\n'
+               'Ll ::= SEQUENCE OF INTEGER %s\nCc ::= CHOICE { c INTEGER %s }\nEND\n' % (text, text, text, text))
+        cases.append({'op': 'compile', 'sources': [src], '_s': (elems, ops, marker, paren, cons)})
+    return cases
+
+
+def judge_setop(ck, cases, results):
+    spec_terms, spec_idx, corr_terms, corr_idx = [], [], [], []
+    for i, (c, r) in enumerate(zip(cases, results)):
+        elems, ops, marker, paren, cons = c['_s']
+        ck.note_case('setop:' + c['sources'][0])
+        ck.count('setop')
+        if 'panic' in r or 'crash' in r:
+            ck.violation('impl-crash', c['sources'][0], impl=r)
+            continue
+        if not r.get('ok') or 'items' not in r:
+            ck.count('setop-rejected')
+            continue
+        obs = []
+        t = find(r['items'], 'struct', 'Tt')
+        if t:
+            obs.append(('assign', t['fields'][0]['ty']))
+        s_ = find(r['items'], 'struct', 'Ss')
+        if s_:
+            obs.append(('component', s_['fields'][0]['ty']))
+        l = find(r['items'], 'struct', 'AnonymousLl')
+        if l:
+            obs.append(('element', l['fields'][0]['ty']))
+        else:
+            l2 = find(r['items'], 'struct', 'Ll')
+            m = re.match(r'SequenceOf<(\w+)>$', l2['fields'][0]['ty']) if l2 else None
+            if m:
+                obs.append(('element-inline', m.group(1)))
+        ch = find(r['items'], 'enum', 'Cc')
+        if ch:
+            obs.append(('alternative', ch['variants'][0]['fields'][0]['ty']))
+        if len(obs) < 4 and not r.get('warnings'):
+            ck.violation('impl-violation', c['sources'][0], why='a constrained INTEGER was not generated', got=obs)
+        for pos, tok in obs:
+            ty = TOK2TY.get(tok)
+            if ty is None:
+                ck.violation('impl-violation', c['sources'][0], why='%s: unexpected integer type token %r' % (pos, tok))
+                continue
+            fl = flat_term(with_marker(elems, marker and not paren), ops)
+            spec_terms.append('(%s, %s, %s)' % (fl, cbool(marker), ty))
+            spec_idx.append((i, pos))
+            if pos in ('component', 'alternative', 'element-inline'):
+                corr_terms.append('(%s, %s)' % (clist([G.c_constraint(cons)]), ty))
+                corr_idx.append((i, pos))
+    bad = coq_eval_bad('C06', REQ, 'flat * bool * int_ty', 'spec_setop', spec_terms, label='setop_spec')
+    failed = set()
+    for j in bad:
+        i, pos = spec_idx[j]
+        failed.add(i)
+        ck.violation('impl-violation', cases[i]['sources'][0], position=pos, term=spec_terms[j],
+                     why='the integer type chosen for a set-operation / parenthesised constraint cannot hold a permitted value or is '
+                         'fixed-width although the constraint is extensible or unbounded')
+    for j in coq_eval_bad('C06', REQ, 'list constraint * int_ty', 'corr_component', corr_terms, label='setop_corr'):
+        i, pos = corr_idx[j]
+        if i in failed:
+            continue
+        ck.broken.append({'kind': 'correspondence', 'item': 'H6/H5 component width through the fold',
+                          'detail': 'model and implementation disagree at %s on %s (%s)' % (pos, cases[i]['sources'][0], corr_terms[j])})
+
+
 def run(ck):
     ck.coverage['rule'] = ('direct: all 53x53 (lower, upper) pairs of the boundary set x ext through int_type_token (hook) and '
                            'Constraint::integer_constraints (public), all 81 max_restrictive pairs; end-to-end: modules with the '
@@ -216,7 +302,7 @@ def run(ck):
     ck.assumptions += ['ladders are re-translated from source (T06, T07); the head of integer_constraints and the option prologue of '
                        'int_type_token are hand-modelled and tied by the correspondence H6',
                        'rustc integer type ranges are as in Spec/IntFits.v']
-    ck.prove('Props/C06.v', ['RasnV.Props.C06'], extra=['Corr/C06.vo'])
+    ck.prove('Props/C06.v', ['RasnV.Props.C06'], extra=['Corr/C06.vo'], titems=['T06', 'T07'])
     cases = direct_cases(ck)
     pairs = [(lo, hi, ext) for lo in POINTS for hi in POINTS for ext in (False, True)
              if lo is None or hi is None or lo <= hi]
@@ -234,6 +320,10 @@ def run(ck):
         ck.sample({'asn1': c['sources'][0]})
     ck.sample({k: v for k, v in cases[0].items() if k != '_m'})
     judge(ck, cases, results)
+    sc = setop_cases(ck, 400 if ck.tier == 'quick' else 8000)
+    if sc:
+        ck.sample({'asn1': sc[0]['sources'][0]})
+    judge_setop(ck, sc, run_harness(sc))
 
 
 def replay(ck, data):
@@ -249,5 +339,5 @@ def replay(ck, data):
             c = dict(c)
             c['_m'] = (None if c.get('min') is None else int(c['min']), None if c.get('max') is None else int(c['max']), c.get('ext', False))
             cases.append(c)
-    ck.prove('Props/C06.v', ['RasnV.Props.C06'], extra=['Corr/C06.vo'])
+    ck.prove('Props/C06.v', ['RasnV.Props.C06'], extra=['Corr/C06.vo'], titems=['T06', 'T07'])
     judge(ck, cases, run_harness(cases))
